@@ -431,7 +431,17 @@ def _len_call_on(body, op, rkey):
             t = d[3]
             if LEN_CALL.search(callee_path(t)):
                 rp = receiver_place(body, t)
-                return rp is not None and place_key(rp) == rkey
+                if rp is None:
+                    return False
+                if place_key(rp) == rkey:
+                    return True
+                # `stream.remaining()` on `stream: &mut Bytes` resolves to the forwarding impl
+                # `<&mut T as Buf>::remaining(&stream)`: the length asked for is that of `*stream`
+                if re.match(r"<&(mut )?T as ", callee_path(t)):
+                    through = dict(rp)
+                    through["p"] = list(rp.get("p", [])) + ["*"]
+                    return place_key(through) == rkey
+                return False
             return False
         if d[2] == "assign" and d[3]["rv"]["k"] == "use":
             l = op_local(d[3]["rv"]["a"])
